@@ -108,6 +108,13 @@ def gen_cases(ctx):
         t["coef"] = a
         s = [float2bits(bits2float(a[0]) + bits2float(b[0])), float2bits(bits2float(a[1]) + bits2float(b[1]))]
         mk("group", n, t, b=b, sum=s)
+    # exponents with a large real part of either sign (|Re| = 100 .. 700: cosh and sinh are near 1e43 .. 1e303, still finite): judged
+    # against cosh(a) psi + sinh(a) P psi formed by the driver with Python's cmath (outside Coq; labelled large_exponents)
+    for re_ in (-100.0, -365.0, -369.5, -371.0, -400.0, -650.0, 120.0, 400.0, 700.0):
+        for n in (1, 2, 3):
+            t = rand_string(rng, n, allow_empty=(n == 3 and re_ in (-400.0, 400.0)))
+            t["coef"] = [float2bits(re_), float2bits(rng.uniform(-1, 1))]
+            mk("exp", n, t); mk("exp_factor", n, t, factor=[float2bits(1.0), float2bits(0.0)])
     # call history: the same string exponentiated first with OTHER coefficients on the same thread (real and imaginary part exchanged,
     # both negated, equal parts, the same value) - a remembered cosh / sinh must never be handed to a different exponent
     for n in (1, 2, 3):
@@ -162,6 +169,32 @@ def run_cases(ctx, cases):
         codes[i] = parseN(o)
     return results, codes, skipped
 
+def judge_large(ctx, c, r, stats):
+    import cmath
+    a = complex(*[bits2float(x) for x in r["alpha"]])
+    v = [complex(bits2float(c["v"][2 * i]), bits2float(c["v"][2 * i + 1])) for i in range(1 << c["n"])]
+    ops = (r.get("readback") or [c["term"]])[0]["ops"]
+    mask = 0
+    for q, pch in ops:
+        if pch != "Z": mask |= 1 << q
+    def ph(k):
+        z = 1
+        for q, pch in ops:
+            b = (k >> q) & 1
+            z *= 1 if pch == "X" else ((-1 if b else 1) if pch == "Z" else (1j if b else -1j))
+        return z
+    try:
+        ch, sh, ea = cmath.cosh(a), cmath.sinh(a), cmath.exp(a)
+    except OverflowError:
+        return
+    w = [complex(bits2float(r["v"][2 * i]), bits2float(r["v"][2 * i + 1])) for i in range(len(v))]
+    exp_ = [ea * v[k] for k in range(len(v))] if not ops else [ch * v[k] + sh * ph(k) * v[k ^ mask] for k in range(len(v))]
+    scale = (abs(ch) + abs(sh)) * max(abs(z) for z in v)
+    stats["large_exponents"] = stats.get("large_exponents", 0) + 1
+    if any(z != z for z in w) or max(abs(x - y) for x, y in zip(w, exp_)) > 1e-11 * scale:
+        ctx.violations.append(("exponent with real part %.1f: the result is not cosh(a) psi + sinh(a) P psi (relative deviation %s)" % (a.real, "NaN" if any(z != z for z in w) else "%.3g" % (max(abs(x - y) for x, y in zip(w, exp_)) / scale)),
+                               {"case": c, "brief": brief(c)}))
+
 def judge(ctx, cases, results, codes):
     stats = {"class_agrees": 0, "model_close": 0, "model_equal": 0, "series_spec_close": 0, "oracle_matches_series": 0, "group_ok": 0, "exp0_ok": 0, "err": 0}
     for c, r, code in zip(cases, results, codes):
@@ -169,7 +202,9 @@ def judge(ctx, cases, results, codes):
         if r["r"] in ("panic", "crash"):
             ctx.violations.append(("panic: %s" % r.get("msg", ""), {"case": c, "brief": b})); continue
         if r["r"] == "err": stats["err"] += 1
-        if code is None: continue
+        if code is None:
+            if r["r"] == "ok" and c["mode"] in ("exp", "exp_factor") and 60 < cabs(r["alpha"]) < 705: judge_large(ctx, c, r, stats)
+            continue
         if c["mode"] == "group":
             if code & 1: stats["group_ok"] += 1
             else: ctx.violations.append(("exp(aP) exp(bP) differs from exp((a+b)P) on the implementation's outputs", {"case": c, "brief": b}))
